@@ -12,7 +12,7 @@ enum Out {
     Handle,
 }
 
-const NB: usize = 16;
+const NB: usize = 18;
 const NM: usize = 16;
 
 fn ooc_bytes(b: &mut Bytes, v: usize, k: usize) -> (Out, bool) {
@@ -98,6 +98,15 @@ fn ooc_bytes(b: &mut Bytes, v: usize, k: usize) -> (Out, bool) {
         14 => {
             b.truncate(len + k);
             (Out::Unit, true)
+        }
+        15 => {
+            // an empty range that lies beyond the end is still out of range
+            let _ = b.slice(len + 1 + k..len + 1 + k);
+            (Out::Handle, false)
+        }
+        16 => {
+            let _ = b.slice(len + 1 + k..=len + k);
+            (Out::Handle, false)
         }
         _ => {
             let e = b.slice_ref(&[]);
